@@ -7,6 +7,7 @@
 package main
 
 import (
+	"os"
 	"time"
 
 	"circlsim/codec"
@@ -33,7 +34,17 @@ func main() {
 		Gen:        func(r *core.PRNG, tier string) any { return codec.Gen(r, tier, nil) },
 		Exec:       func(plan []byte, run *core.Run) { codec.Exec(codec.NoPanic, plan, run) },
 		ExtraEvidence: func(tier string) map[string]any {
-			return map[string]any{"entry_points": codec.Names(), "entry_point_count": len(codec.Names()), "uncovered_candidates": codec.Uncovered()}
+			repo := os.Getenv("VERIF_REPO")
+			if repo == "" {
+				repo = "/repo"
+			}
+			all, un := codec.UncoveredCandidates(repo)
+			if un == nil {
+				un = []string{}
+			}
+			return map[string]any{"entry_points": codec.Names(), "entry_point_count": len(codec.Names()),
+				"scan_candidates": len(all), "uncovered_candidates": un,
+				"scan_rule":       "go/ast scan of the repository's non-internal, non-test packages for exported functions / methods named Unmarshal*, SetBytes, FromBytes, Import, Unpack, Verify*, Decapsulate*, Open, Decrypt*, FromString, ExtractFromCiphertext, CouldDecrypt, Finalize, CombineSignShares, Recover that return an error or bool; uncovered = not claimed by any registry / protocol-check pattern"}
 		},
 		RunsFn: func(tier string) int {
 			n := len(codec.Directed(tier, nil, false))
